@@ -10,6 +10,7 @@ def probing (ci : Str) (b : Behav) : Bool :=
   match b.form with
   | .before _ => true
   | .after => true
+  | .afterLine _ _ => true
   | .inside off => decide (ci.length ≤ off) && blank b.out
   | _ => false
 
@@ -71,6 +72,9 @@ theorem runNoHash_reply (ci : Str) (b : Behav) (hc : CleanCmd ci) (hb : CleanBeh
     obtain ⟨z, hz⟩ := body_then_nl ci b.out _ hb.out
       (bannerText_starts_nl b.msg ('\n' :: (prompt ++ w)))
     rw [hz]; exact hc.runNoHash_append _
+  | afterLine pre post =>
+    simp only [List.append_assoc, List.cons_append, List.nil_append]
+    exact hc.runNoHash_append _
 
 
 variable {σ : Type}
@@ -114,6 +118,13 @@ theorem check_reply (st : St σ) (ci : Str) (b : Behav) (rest : Str) (hc : Clean
     subst hrest
     have := check_after st ci b.out b.msg [] [] 0 hc hb.out
       (hb.msg (by rw [hf]; simp)) (by rw [hp]; simp [nls]) ha (.inl ⟨rfl, rfl⟩)
+    simpa [needOf, hf] using this
+  | afterLine pre post =>
+    rw [hf] at hp
+    have hrest : rest = [] := hprobe (by simp [probing, hf])
+    subst hrest
+    have := check_afterLine st ci b.out b.msg pre post hc hb.out
+      (hb.msg (by rw [hf]; simp)) (by rw [hp]; simp) ha
     simpa [needOf, hf] using this
 
 
